@@ -152,8 +152,22 @@ func checkC09(c c09Case) (ci caseInfo, err error) {
 	// message level: the header fields are kept and a completed message encodes like the direct one
 	if c.Hdr != nil {
 		h := *c.Hdr
-		m1 := ast.NewDataMessage(h.Name, h.Stream, h.Function, h.Wait, h.Dir, tmpl).FillVariables(fill)
+		m1 := ast.NewDataMessage(h.Name, h.Stream, h.Function, h.Wait, h.Dir, tmpl)
 		m2 := ast.NewDataMessage(h.Name, h.Stream, h.Function, h.Wait, h.Dir, want)
+		if c.Variant%2 == 1 {
+			// the other producers may come BEFORE the fill: the fill must keep what they set
+			m1 = m1.SetSessionIDAndSystemBytes(h.Session, h.System)
+			m2 = m2.SetSessionIDAndSystemBytes(h.Session, h.System)
+			if c.Variant%4 == 3 {
+				m1, m2 = m1.SetWaitBit(h.Wait == 1), m2.SetWaitBit(h.Wait == 1)
+			}
+			ci.label("message:producers-before-fill")
+		}
+		m1 = m1.FillVariables(fill)
+		if m1.SessionID() != m2.SessionID() || !bytes.Equal(m1.SystemBytes(), m2.SystemBytes()) || m1.WaitBit() != m2.WaitBit() {
+			return ci, fmt.Errorf("message fill changed header data: session %d system %x wait %s, direct construction has session %d system %x wait %s",
+				m1.SessionID(), m1.SystemBytes(), m1.WaitBit(), m2.SessionID(), m2.SystemBytes(), m2.WaitBit())
+		}
 		if m1.String() != m2.String() || !sameStrings(m1.Variables(), m2.Variables()) {
 			return ci, fmt.Errorf("message fill differs from direct construction:\n got: %s\nwant: %s", clipStr(m1.String(), 300), clipStr(m2.String(), 300))
 		}
